@@ -150,7 +150,7 @@ func genCase(t *rapid.T) Case {
 	enrich(t, p)
 	var l *model.Layout
 	if rapid.IntRange(0, 3).Draw(t, "canonical") != 0 {
-		l = gen.Layout(t, gen.LayoutOpts{})
+		l = gen.Layout(t, gen.LayoutOpts{Esc: 1})
 	} else {
 		l = &model.Layout{}
 	}
